@@ -55,6 +55,9 @@ RULES = {
     # P6 context construction ---------------------------------------------------
     'P6_subcx': [
         (r'Context::from_waker\(self\.wakers\.get\((\w+)\)\.unwrap\(\)\)', r'self.wakers.sub_context(\1)'),
+        # the same in two steps (e.g. the waker hoisted into a `let`)
+        (r'self\.wakers\.get\(([^()]+)\)\.unwrap\(\)', r'self.wakers.sub_waker(\1)'),
+        (r'Context::from_waker\(', 'SubCx::from_waker('),
     ],
     # P1 child poll through ManuallyDrop-wrapped pinned futures -----------------
     'P1_fut_poll_i': [
